@@ -140,6 +140,83 @@ fn apply(w: &mut World, op: &Op, ks: &[Address], trace: &[Op], report: &Report) 
     }
 }
 
+/// Every bit position of the 256-bit address as the FIRST differing bit of a small key set (the
+/// trie cuts addresses into 5-bit chunks that straddle byte and machine-word boundaries at
+/// different depths): for each position b and three base patterns, the keys {base, base ^ bit b,
+/// base ^ bit b ^ last bit, base ^ bit (b+1)} are inserted in every order and removed in every
+/// rotation; after every operation the real state is compared with the ordered map (lookups,
+/// length, ordered iteration, canonical form, incremental commitment).
+fn bit_boundary_sweep(report: &Report) -> usize {
+    let mut cases = 0;
+    let flip = |k: &Address, bit: usize| -> Address {
+        let mut x = *k;
+        x[bit / 8] ^= 0x80 >> (bit % 8);
+        x
+    };
+    let bases: [Address; 3] = [[0u8; 32], [0xffu8; 32], core::array::from_fn(|i| (i as u8).wrapping_mul(73).wrapping_add(5))];
+    let perms: Vec<Vec<usize>> = {
+        let mut out = Vec::new();
+        let idx = [0usize, 1, 2, 3];
+        for a in idx { for b in idx { for c in idx { for d in idx {
+            let p = vec![a, b, c, d];
+            let mut q = p.clone(); q.sort(); q.dedup();
+            if q.len() == 4 { out.push(p); }
+        }}}}
+        out
+    };
+    for b in 0..256usize {
+        for base in &bases {
+            let mut ks: Vec<Address> = vec![*base, flip(base, b), flip(&flip(base, b), 255), flip(base, (b + 1).min(255))];
+            ks.sort();
+            ks.dedup();
+            if ks.len() < 4 {
+                // b = 255 collapses some of them; pad with distinct keys
+                while ks.len() < 4 {
+                    let extra = flip(base, ks.len() * 7);
+                    if !ks.contains(&extra) { ks.push(extra); } else { ks.push(flip(&extra, 100)); }
+                }
+            }
+            let absent: Address = flip(&flip(base, b), (b + 2).min(255).max(1) - 1);
+            for (pi, p) in perms.iter().enumerate() {
+                cases += 1;
+                let mut w = World { forks: vec![Fork { real: State::new(), lt: LtHash::identity(), rf: BTreeMap::new() }], active: 0 };
+                let mut trace: Vec<Op> = Vec::new();
+                let r = catch(std::panic::AssertUnwindSafe(|| {
+                    let mut ok = true;
+                    for k in p {
+                        let op = Op::Insert(*k, (*k as u8) + 1);
+                        trace.push(op.clone());
+                        apply(&mut w, &op, &ks, &trace, report);
+                        ok &= check_world(&w, &ks, &absent, &trace, report);
+                        if !ok { return false; }
+                    }
+                    for j in 0..4 {
+                        let op = Op::Remove(p[(j + pi) % 4]);
+                        trace.push(op.clone());
+                        apply(&mut w, &op, &ks, &trace, report);
+                        ok &= check_world(&w, &ks, &absent, &trace, report);
+                        if !ok { return false; }
+                    }
+                    ok
+                }));
+                match r {
+                    Ok(true) => {}
+                    Ok(false) => return cases, // reported by check_world (first failing case is enough)
+                    Err(msg) => {
+                        report.violation(
+                            "C20:state-panics-on-keys-sharing-a-prefix".to_string(),
+                            format!("keys first differing at bit {b} (base pattern {}): {msg:.160}", bases.iter().position(|x| x == base).unwrap()),
+                            json!({"oracle": "bit-boundary-sweep", "first_differing_bit": b, "insert_order": p}),
+                        );
+                        return cases;
+                    }
+                }
+            }
+        }
+    }
+    cases
+}
+
 fn explore(report: &Report, nkeys: usize, max_forks: usize, max_states: usize, label: &str) -> Value {
     let all = keys();
     let ks: Vec<Address> = all[..nkeys].to_vec();
@@ -497,6 +574,8 @@ pub fn run(tier: Tier) -> i32 {
     let (cases, distinct) = dummy_execution(&report, tier);
     let versions = same_slot_versions(&report);
     let fin_cases = finalize_sweep(&report);
+    let boundary_cases = bit_boundary_sweep(&report);
+    println!("  bit-boundary sweep: {boundary_cases} insert/remove sequences");
     let cases = cases + versions + fin_cases;
     println!("  dummy-execution: cases={cases} (two-versions-of-one-slot {versions}, finalization {fin_cases}) distinct commitments={distinct}");
     let cov = json!({
@@ -507,6 +586,8 @@ pub fn run(tier: Tier) -> i32 {
         "bound": "all sequences of insert (2 values) / remove / fork / switch over adversarially clustered keys (sharing 0,1,2,10,25,51 trie levels, and keys differing only in the low bits of a byte that straddles a level boundary), closed under the content tuple of the forks (merging justified by the canonicity assertion checked in every state)",
         "families": fams,
         "dummy_execution_cases": cases,
+        "bit_boundary_sequences": boundary_cases,
+        "bit_boundary_rule": "for every bit position b of the address (0..=255) and three base patterns: keys {base, base^bit b, base^bit b^last bit, base^bit b+1} inserted in all 24 orders and removed in 4 rotations, the full state oracle after every operation",
         "dummy_execution_distinct_commitments": distinct,
         "samples": [fams[0]["sample"].clone(), {"dummy_execution": "all block trees of up to 3 (thorough 4) blocks with parent in {none, unknown, any earlier block}, transaction sequences over {a,b} of length <= 2, Known/Pending ids, transactions in one call or one per call, sibling executions interleaved; plus two versions of one slot in flight at once (slot-only and full-id tracking, both begin/end orders, child on either); plus finalization: a chain of three blocks, each tracked by slot or by full id (all 8 combinations), finalized slot 1..4, then every block asked to report again (pruned ones must be silent) and a child begun on each of the three (seeded from the block hash of a pruned parent, from the computed commitment of a retained one)"}],
     });
